@@ -7,7 +7,7 @@ import tempfile
 
 from ..core import Tally  # noqa: F401
 from .. import s2c, tlc
-from .bloomfam import gen_tables, make_hash
+from .bloomfam import KEYMAP, gen_tables, make_hash, strategy_fn, strategy_table
 
 ENGINE = "countmin"
 MOD = "vlib.engines.countmin"
@@ -93,6 +93,8 @@ class Ctx:
                     "hh": HeavyHitters, "st": StreamThreshold}[self.kind]
         self.base = CountMinSketch
         self.keys = sorted(params["keys"])
+        self.strategy = params.get("strategy")
+        self.rk = (lambda k: KEYMAP.get(k, k)) if self.strategy else (lambda k: k)
         self.W, self.D = params["W"], params["D"]
         self.tmp = tempfile.mkdtemp(prefix="cms-", dir=tlc.scratch_root())
         self.rt_seen = set()
@@ -112,9 +114,9 @@ class Ctx:
     def apply(self, objs, o):
         s = objs[o[1]]
         if o[0] == "add":
-            return s.add(o[2], o[3])
+            return s.add(self.rk(o[2]), o[3])
         if o[0] == "rem":
-            return s.remove(o[2], o[3])
+            return s.remove(self.rk(o[2]), o[3])
         if o[0] == "clear":
             return s.clear()
         if o[0] == "join":
@@ -135,20 +137,23 @@ class Ctx:
         return list(struct.unpack(f"{n}i", data[: 4 * n]))
 
     def table(self, s):
+        back = {self.rk(k): k for k in self.keys}
         if self.kind == "hh":
-            return [[k, v] for k, v in s.heavy_hitters.items()]
+            return [[back.get(k, k), v] for k, v in s.heavy_hitters.items()]
         if self.kind == "st":
-            return [[k, v] for k, v in s.meets_threshold.items()]
+            return [[back.get(k, k), v] for k, v in s.meets_threshold.items()]
         return []
 
     def observe(self, s):
-        return {"cells": self.cells(s), "total": s.elements_added, "est": {k: s.check(k) for k in self.keys}, "tab": self.table(s)}
+        return {"cells": self.cells(s), "total": s.elements_added, "est": {k: s.check(self.rk(k)) for k in self.keys}, "tab": self.table(s)}
 
     def edge(self, e):
         t = self.t
         table = {k: tuple(v) for k, v in e["pos"].items()}
         hist, o, exp = e["h"], e["a"], e["e"]
         hf = make_hash(table)
+        if self.strategy:
+            hf = None if self.strategy == "fnv" else strategy_fn(self.strategy)
         objs = {"A": self.new(hf), "B": self.new(hf)}
         last_ret = {"A": {}, "B": {}}
         try:
@@ -244,7 +249,7 @@ class Ctx:
         # C17: the public tables against the values the real object itself returned
         if self.kind == "hh":
             lr = last_ret[w]
-            tab = dict(s.heavy_hitters)
+            tab = dict(self.table(s))
             t.check(len(tab) == min(self.p["nh"], len(lr)), "C17", "C17.hh_size", ENGINE, lambda: rp2(returned=lr), sig)
             t.check(all(k in lr and tab[k] == lr[k] for k in tab), "C17", "C17.hh_values", ENGINE, lambda: rp2(returned=lr), sig)
             if tab:
@@ -253,9 +258,9 @@ class Ctx:
         if self.kind == "st":
             lr = last_ret[w]
             want = {k: v for k, v in lr.items() if v >= self.p["thr"]}
-            t.check(dict(s.meets_threshold) == want, "C17", "C17.thr_exact", ENGINE, lambda: rp2(returned=lr), sig)
+            t.check(dict(self.table(s)) == want, "C17", "C17.thr_exact", ENGINE, lambda: rp2(returned=lr), sig)
             if self.mode == "min" and not ex["sat"] and legit:
-                miss = [k for k in self.keys if k in lr and ex["tru"][k] >= self.p["thr"] and k not in s.meets_threshold]
+                miss = [k for k in self.keys if k in lr and ex["tru"][k] >= self.p["thr"] and k not in dict(self.table(s))]
                 t.check(not miss, "C17", "C17.thr_never_missing", ENGINE, lambda: rp2(missing=miss), sig)
         # drift
         extab = [list(x) for x in ex["tab"]]
@@ -306,7 +311,7 @@ class Ctx:
             except Exception as exc:  # noqa
                 t.fail("C05", "C05.load_raises", ENGINE, rp2(channel=name, raised=repr(exc)), s2)
                 continue
-            o2 = {"cells": self.cells(g), "total": g.elements_added, "est": {k: g.check(k) for k in self.keys}}
+            o2 = {"cells": self.cells(g), "total": g.elements_added, "est": {k: g.check(self.rk(k)) for k in self.keys}}
             t.check(o2["est"] == ob["est"], "C05", "C05.queries.cms", ENGINE, lambda: rp2(channel=name, loaded=o2), s2)
             t.check((g.width, g.depth, g.elements_added, g.query_type) == (s.width, s.depth, s.elements_added, s.query_type) and type(g) is type(s),
                     "C05", "C05.geometry.cms", ENGINE, lambda: rp2(channel=name, loaded=o2, loaded_type=type(g).__name__), s2)
@@ -347,7 +352,7 @@ class Ctx:
             g = copy.deepcopy(s)
             g.clear()
             fresh = self.new(hf)
-            t.check(bytes(g) == bytes(fresh) and self.table(g) == [] and g.elements_added == 0 and all(g.check(k) == 0 for k in self.keys),
+            t.check(bytes(g) == bytes(fresh) and self.table(g) == [] and g.elements_added == 0 and all(g.check(self.rk(k)) == 0 for k in self.keys),
                     "C19", "C19.clear_fresh.cms", ENGINE, lambda: rp(who=who), {"kind": self.kind})
 
 
@@ -386,9 +391,20 @@ def profiles(tier, seed, light=False):
         P.append(dict(base, W=1, D=1, H=2, ntables=1, kind="st", thr=3, whos=["A"], amts=[1, 3], maxdepth=7, maxtrue=6))
         for (W, D, H) in [(2, 2, 5), (1, 1, 2), (3, 2, 7)]:
             P.append(dict({**base, **tiny}, W=W, D=D, H=H, ntables=20, maxdepth=4))
+    solo2 = dict(base, whos=["A"], maxdepth=4 if tier == "quick" else 5, maxtrue=3, H=0, ntables=1)
+    for i, st in enumerate(["fnv", "md5", "sha256", "deco_int", "handwritten"] if tier == "quick" else ["fnv", "md5", "sha256", "deco_int", "deco_bytes", "handwritten"]):
+        W, D = [(2, 2), (3, 2), (5, 3)][i % 3]
+        if tier == "quick" and i % 2:
+            continue
+        P.append(dict(solo2, W=W, D=D, strategy=st))
+    P.append(dict(solo2, W=2, D=2, strategy="fnv", kind="hh", nh=2, keys=["a", "b", "c", "d"], maxtrue=4))
+    P.append(dict(solo2, W=2, D=2, strategy="md5", kind="st", thr=2))
     if light and tier == "quick":
         P = [dict(p, ntables=min(p["ntables"], 2), maxdepth=min(p["maxdepth"], 4)) for p in P if not p.get("patch_limits")]
     for i, p in enumerate(P):
+        if p.get("strategy"):
+            p["tables"] = [strategy_table(p["strategy"], p["keys"], p["D"], p["W"])]
+            continue
         p["tables"] = gen_tables(p["keys"], p["W"], p["D"], p["H"], p["ntables"], seed * 1000 + 500 + i, p.get("exhaustive", False))
     return P
 
